@@ -94,6 +94,7 @@ func (ch *CloudHandler) DispatchMetricMap(ctx context.Context, mm *gostatsd.Metr
 	}
 
 	if !mmToHandle.IsEmpty() {
+		verifhook.Yield("cloudhandler.metrics.before-handover", mmToHandle)
 		select {
 		case <-ctx.Done():
 		case ch.incomingMetrics <- mmToHandle:
@@ -107,6 +108,7 @@ func (ch *CloudHandler) DispatchEvent(ctx context.Context, e *gostatsd.Event) {
 		return
 	}
 	ch.wg.Add(1) // Increment before sending to the channel
+	verifhook.Yield("cloudhandler.event.before-handover", e)
 	select {
 	case <-ctx.Done():
 		ch.wg.Done()
